@@ -884,7 +884,10 @@ func (ts *TestScript) condition(cond string) (bool, error) {
 		return cond == runtime.GOARCH, nil
 	case strings.HasPrefix(cond, "exec:"):
 		prog := cond[len("exec:"):]
-		ok := execCache.Do(prog, func() any {
+		// The program is looked up in the script's own PATH, so the
+		// PATH must be part of the cache key: scripts can differ in it.
+		type execCacheKey struct{ path, prog string }
+		ok := execCache.Do(execCacheKey{ts.Getenv("PATH"), prog}, func() any {
 			_, err := execpath.Look(prog, ts.Getenv)
 			return err == nil
 		}).(bool)
